@@ -1129,6 +1129,150 @@ def _bind(target, value, like, body, single_use=False):
     return stmts, mapping
 
 
+def _inline_callable_param_helpers(cls):
+    """`self._wrapped(super().train, mode)` with
+
+        def _wrapped(self, method, *args, **kwargs):
+            self.cache.invalidate()
+            return method(*args, **kwargs)
+
+    is written out at the call site (`self.cache.invalidate(); super().train(mode)`): a bound super-method passed
+    to a helper that calls it is the one way such a helper can delegate, and every analysis that looks for the
+    delegation (mode switches, state-dict loads, _apply) has to see it where it happens."""
+    helpers = {}
+    for m in cls.body:
+        if not isinstance(m, ast.FunctionDef) or m.decorator_list:
+            continue
+        a = m.args
+        pos = [x.arg for x in a.posonlyargs + a.args]
+        if len(pos) < 2 or pos[0] != "self" or a.kwonlyargs or a.defaults:
+            continue
+        body = [st for st in m.body if not (isinstance(st, ast.Expr) and isinstance(st.value, ast.Constant))]
+        if not body or not isinstance(body[-1], ast.Return) or body[-1].value is None:
+            continue
+        if not all(isinstance(st, ast.Expr) and isinstance(st.value, ast.Call) for st in body[:-1]):
+            continue
+        cb = pos[1]
+        uses = [n for st in body for n in ast.walk(st) if isinstance(n, ast.Name) and n.id == cb]
+        calls = [n for st in body for n in ast.walk(st) if isinstance(n, ast.Call) and isinstance(n.func, ast.Name) and n.func.id == cb]
+        if len(uses) != 1 or len(calls) != 1:
+            continue
+        call = calls[0]
+        va, ka = (a.vararg.arg if a.vararg else None), (a.kwarg.arg if a.kwarg else None)
+        # the callable is applied to exactly the helper's remaining parameters, in order
+        want_args = [("name", x) for x in pos[2:]] + ([("star", va)] if va else [])
+        got_args = [("star", x.value.id) if isinstance(x, ast.Starred) and isinstance(x.value, ast.Name) else (("name", x.id) if isinstance(x, ast.Name) else None) for x in call.args]
+        got_kw = [k.value.id if k.arg is None and isinstance(k.value, ast.Name) else None for k in call.keywords]
+        if got_args != want_args or got_kw != ([ka] if ka else []):
+            continue
+        others = {n.id for st in body for n in ast.walk(st) if isinstance(n, ast.Name)} - {"self", cb} - set(pos[2:]) - {va, ka}
+        if any(isinstance(n, ast.Name) and isinstance(n.ctx, ast.Store) for st in body for n in ast.walk(st)):
+            continue
+        helpers[m.name] = (m, body, call, len(pos) - 2)
+    if not helpers:
+        return
+
+    def is_super_attr(e):
+        return isinstance(e, ast.Attribute) and isinstance(e.value, ast.Call) and isinstance(e.value.func, ast.Name) and e.value.func.id == "super"
+
+    def site(st):
+        v = st.value if isinstance(st, (ast.Return, ast.Expr, ast.Assign)) else None
+        if isinstance(v, ast.Call) and isinstance(v.func, ast.Attribute) and isinstance(v.func.value, ast.Name) and v.func.value.id == "self" and v.func.attr in helpers and v.args and is_super_attr(v.args[0]):
+            return v
+        return None
+
+    def rewrite(stmts):
+        out = []
+        for st in stmts:
+            for field in ("body", "orelse", "finalbody"):
+                sub = getattr(st, field, None)
+                if isinstance(sub, list) and sub and isinstance(sub[0], ast.stmt) and not isinstance(st, (ast.FunctionDef, ast.ClassDef)):
+                    setattr(st, field, rewrite(sub))
+            v = site(st)
+            if v is None:
+                out.append(st)
+                continue
+            m, body, call, n_named = helpers[v.func.attr]
+            rest = v.args[1:]
+            if any(isinstance(x, ast.Starred) for x in rest[:n_named]) or len(rest) < n_named:
+                out.append(st)
+                continue
+            new_call = ast.Call(func=copy.deepcopy(v.args[0]), args=[copy.deepcopy(x) for x in rest], keywords=[copy.deepcopy(k) for k in v.keywords])
+
+            class R(ast.NodeTransformer):
+                def visit_Call(self, n):
+                    if n is call or (isinstance(n.func, ast.Name) and n.func.id == call.func.id):
+                        return copy.deepcopy(new_call)
+                    return self.generic_visit(n)
+
+            for pre in body[:-1]:
+                out.append(ast.fix_missing_locations(ast.copy_location(R().visit(copy.deepcopy(pre)), st)))
+            ret = R().visit(copy.deepcopy(body[-1].value))
+            st.value = ast.copy_location(ret, v)
+            out.append(ast.fix_missing_locations(st))
+        return out
+
+    for m in cls.body:
+        if isinstance(m, ast.FunctionDef) and m.name not in helpers:
+            m.body = rewrite(m.body)
+
+
+def _inline_procedures(cls, module_classes):
+    """`self._reset()` as a statement, with `_reset(self)` a private method made of plain attribute assignments /
+    call statements only (no return, no control flow, no local left behind): written out where it is called, so
+    that `__init__` and `invalidate()` sharing one body read like the two copies they replace."""
+    procs = {}
+    for m in cls.body:
+        if not isinstance(m, ast.FunctionDef) or m.decorator_list or not m.name.startswith("_") or m.name.startswith("__"):
+            continue
+        a = m.args
+        if [x.arg for x in a.posonlyargs + a.args] != ["self"] or a.vararg or a.kwarg or a.kwonlyargs:
+            continue
+        if any(isinstance(c, ast.ClassDef) and c is not cls and any(isinstance(x, ast.FunctionDef) and x.name == m.name for x in c.body) for c in module_classes):
+            continue
+        body = [st for st in m.body if not (isinstance(st, ast.Expr) and isinstance(st.value, ast.Constant)) and not isinstance(st, ast.Pass)]
+        keep, ok = [], True
+        local_consts = set()
+        for st in body:
+            if isinstance(st, ast.Assign) and len(st.targets) == 1 and isinstance(st.targets[0], ast.Name) and isinstance(st.value, ast.Constant):
+                local_consts.add(st.targets[0].id)  # what an unrolled loop leaves behind
+                continue
+            if isinstance(st, ast.Assign) and all(isinstance(t, ast.Attribute) and isinstance(t.value, ast.Name) and t.value.id == "self" for t in st.targets):
+                keep.append(st)
+            elif isinstance(st, ast.Expr) and isinstance(st.value, ast.Call):
+                keep.append(st)
+            else:
+                ok = False
+                break
+        if not ok or not keep or len(keep) > 8:
+            continue
+        if any(isinstance(n, ast.Name) and n.id in local_consts for st in keep for n in ast.walk(st)):
+            continue
+        if any(isinstance(n, ast.Call) and isinstance(n.func, ast.Attribute) and isinstance(n.func.value, ast.Name) and n.func.value.id == "self" and n.func.attr == m.name for st in keep for n in ast.walk(st)):
+            continue
+        procs[m.name] = keep
+    if not procs:
+        return
+
+    def rewrite(stmts):
+        out = []
+        for st in stmts:
+            for field in ("body", "orelse", "finalbody"):
+                sub = getattr(st, field, None)
+                if isinstance(sub, list) and sub and isinstance(sub[0], ast.stmt) and not isinstance(st, (ast.FunctionDef, ast.ClassDef)):
+                    setattr(st, field, rewrite(sub))
+            v = st.value if isinstance(st, ast.Expr) else None
+            if isinstance(v, ast.Call) and not v.args and not v.keywords and isinstance(v.func, ast.Attribute) and isinstance(v.func.value, ast.Name) and v.func.value.id == "self" and v.func.attr in procs:
+                out.extend(ast.fix_missing_locations(ast.copy_location(copy.deepcopy(x), st)) for x in procs[v.func.attr])
+            else:
+                out.append(st)
+        return out
+
+    for m in cls.body:
+        if isinstance(m, ast.FunctionDef) and m.name not in procs:
+            m.body = rewrite(m.body)
+
+
 class Desugar:
     def __init__(self):
         self.opnames = set()
@@ -1143,6 +1287,7 @@ class Desugar:
             tree = _eliminate_namedtuples(tree)
         except Exception:
             pass  # leave the module as written: the engines will say "undecided" where they cannot follow
+        self._module_classes = [c for c in ast.walk(tree) if isinstance(c, ast.ClassDef)]
         self._module_tables = _literal_tables(tree.body, _names_stored_toplevel(tree.body))
         tree.body = self.block(tree.body, None, None)
         return tree
@@ -1153,8 +1298,7 @@ class Desugar:
         for n in ast.walk(cls):
             if isinstance(n, ast.Attribute) and isinstance(n.ctx, (ast.Store, ast.Del)) and isinstance(n.value, ast.Name) and n.value.id in ("self", "cls"):
                 assigned_on_self.add(n.attr)
-            if isinstance(n, ast.Call) and isinstance(n.func, ast.Name) and n.func.id == "setattr":
-                return {}
+        setattrs = [n for n in ast.walk(cls) if isinstance(n, ast.Call) and isinstance(n.func, ast.Name) and n.func.id == "setattr"]
         for st in cls.body:
             if isinstance(st, ast.Assign) and len(st.targets) == 1 and isinstance(st.targets[0], ast.Name):
                 v = st.value
@@ -1163,6 +1307,25 @@ class Desugar:
         for k in list(consts):
             if k in assigned_on_self or not k.isupper() and not k.startswith("_"):
                 del consts[k]
+        # setattr(self, <name>, ..) may assign anything -- unless the names it can take are written out: a string
+        # constant, or the variable of a loop over one of these constant tuples (none of them naming a constant)
+        for n in setattrs:
+            nm = n.args[1] if len(n.args) >= 2 else None
+            if isinstance(nm, ast.Constant) and isinstance(nm.value, str) and nm.value not in consts:
+                continue
+            ok = False
+            if isinstance(nm, ast.Name):
+                loops = [l for l in ast.walk(cls) if isinstance(l, ast.For) and isinstance(l.target, ast.Name) and l.target.id == nm.id and any(x is n for x in ast.walk(l))]
+                for l in loops:
+                    it = l.iter
+                    if isinstance(it, ast.Attribute) and isinstance(it.value, ast.Name) and it.value.id in ("self", "cls") and it.attr in consts:
+                        vals = [e.value for e in consts[it.attr].elts if isinstance(e, ast.Constant)]
+                        if len(vals) == len(consts[it.attr].elts) and all(isinstance(v, str) and v not in consts for v in vals):
+                            ok = True
+                    elif isinstance(it, (ast.Tuple, ast.List)) and all(isinstance(e, ast.Constant) and isinstance(e.value, str) and e.value not in consts for e in it.elts):
+                        ok = True
+            if not ok:
+                return {}
         return consts
 
     def block(self, stmts, fn, cls, tuples=None):
@@ -1197,7 +1360,7 @@ class Desugar:
                 stored = _names_stored([r])
                 stored_attrs = {x.attr for x in ast.walk(r) if isinstance(x, ast.Attribute) and isinstance(x.ctx, (ast.Store, ast.Del))}
                 for k in list(tuples):
-                    roots = {x.id for x in ast.walk(tuples[k]) if isinstance(x, ast.Name)}
+                    roots = {x.id for x in ast.walk(tuples[k]) if isinstance(x, ast.Name)} - {a.arg for x in ast.walk(tuples[k]) if isinstance(x, ast.Lambda) for a in x.args.posonlyargs + x.args.args + x.args.kwonlyargs}
                     attrs = {x.attr for x in ast.walk(tuples[k]) if isinstance(x, ast.Attribute)}
                     if k in stored or (roots - {"self", "cls"}) & stored or attrs & stored_attrs:
                         del tuples[k]
@@ -1226,7 +1389,15 @@ class Desugar:
             self._kw_helpers = _kw_helpers(st)
             saved_pl = getattr(self, "_param_lens", {})
             self._param_lens = _param_lens(st)
+            try:
+                _inline_callable_param_helpers(st)
+            except Exception:
+                pass  # left as written
             st.body = self.block(st.body, None, st)
+            try:
+                _inline_procedures(st, getattr(self, "_module_classes", ()))
+            except Exception:
+                pass  # left as written
             self._kw_helpers = saved_kw
             self._param_lens = saved_pl
             self._class_tables, self._class_fns, self._class_name = saved
@@ -1264,7 +1435,7 @@ class Desugar:
             elif isinstance(value, list):
                 setattr(st, field, [ex.visit(v) if isinstance(v, ast.AST) else v for v in value])
         res = [st]
-        for rewrite in (self._index_copy, self._inplace_stmt, self._chain, self._walrus, self._reduce, self._for, self._unpack, self._cond_tuple, self._lift_callee_choice):
+        for rewrite in (self._setattr_stmt, self._index_copy, self._inplace_stmt, self._chain, self._walrus, self._reduce, self._for, self._unpack, self._cond_tuple, self._lift_callee_choice):
             nxt = []
             for s in res:
                 r = rewrite(s)
@@ -1532,6 +1703,15 @@ class Desugar:
         return [ast.fix_missing_locations(ast.copy_location(ast.If(test=copy.deepcopy(m.test), body=ra, orelse=rb), st))]
 
     # -- x.mul_(a) as a statement: x *= a ------------------------------------------------------------------
+    def _setattr_stmt(self, st):
+        """setattr(obj, "name", value) as a statement  ->  obj.name = value"""
+        if isinstance(st, ast.Expr) and isinstance(st.value, ast.Call) and isinstance(st.value.func, ast.Name) and st.value.func.id == "setattr" and len(st.value.args) == 3 and not st.value.keywords:
+            obj, nm, val = st.value.args
+            if isinstance(nm, ast.Constant) and isinstance(nm.value, str) and nm.value.isidentifier() and _is_simple(obj):
+                tgt = ast.copy_location(ast.Attribute(value=obj, attr=nm.value, ctx=ast.Store()), st)
+                return [ast.fix_missing_locations(ast.copy_location(ast.Assign(targets=[tgt], value=val), st))]
+        return None
+
     def _inplace_stmt(self, st):
         ops = {"add_": ast.Add, "sub_": ast.Sub, "mul_": ast.Mult, "div_": ast.Div}
         if isinstance(st, ast.Expr) and isinstance(st.value, ast.Call) and isinstance(st.value.func, ast.Attribute) and st.value.func.attr in ops and isinstance(st.value.func.value, ast.Name) and len(st.value.args) == 1 and not st.value.keywords and not isinstance(st.value.args[0], ast.Starred):
